@@ -6,7 +6,8 @@ ids = [json.loads(l)["id"] for l in open(os.path.join(V, "properties.jsonl"))]
 checks, na = [], []
 for pid in ids:
     p = os.path.join(V, "props", pid + ".json")
-    if not os.path.exists(p):
+    ready = open(os.path.join(V, "props", "ready.txt")).read().split()
+    if not os.path.exists(p) or pid not in ready:
         na.append(dict(property_id=pid, reason="no check registered yet: the model/theorems for this property are not built in this snapshot (see DESIGN.md section 3)"))
         continue
     pr = json.load(open(p))
